@@ -473,6 +473,9 @@ func (fr *Frame) execInstr(in ssa.Instruction, st *State) *State {
 		u.note("go statement in %s: the spawned function is not part of this activation (verified separately if in scope)", fr.key)
 		return st
 	case *ssa.Send:
+		if op := fr.chanOpFor(x.Chan, true); op != nil {
+			return fr.applyChanOps(st, []*chanOp{op}, []Term{True}, False)
+		}
 		u.note("channel send in %s is not modelled", fr.key)
 		u.outsideSubset = append(u.outsideSubset, "channel send")
 		return st
@@ -494,6 +497,19 @@ func (fr *Frame) execInstr(in ssa.Instruction, st *State) *State {
 		}
 		fr.tuples[x] = ts
 		u.note("select in %s is modelled as a nondeterministic choice", fr.key)
+		if len(ts) > 0 {
+			var ops []*chanOp
+			var chosen []Term
+			for i, s := range x.States {
+				ops = append(ops, fr.chanOpFor(s.Chan, s.Dir == types.SendOnly))
+				chosen = append(chosen, Eq(ts[0], IntLit(int64(i))))
+			}
+			none := False
+			if !x.Blocking {
+				none = Eq(ts[0], IntLit(-1))
+			}
+			return fr.applyChanOps(st, ops, chosen, none)
+		}
 		return st
 	}
 	u.note("unsupported instruction %T in %s", in, fr.key)
@@ -590,6 +606,9 @@ func (fr *Frame) execUnOp(x *ssa.UnOp, st *State) *State {
 		fr.assumeTypeInv(st, fr.regs[x], x.Type())
 	case token.ARROW:
 		// channel receive
+		if op := fr.chanOpFor(x.X, false); op != nil {
+			st = fr.applyChanOps(st, []*chanOp{op}, []Term{True}, False)
+		}
 		if x.CommaOk {
 			fr.tuples[x] = []Term{u.fresh(fr.vname(x), w.sortOf(x.Type().(*types.Tuple).At(0).Type())), u.fresh(fr.vname(x), SBool)}
 		} else {
